@@ -596,7 +596,24 @@ def fallback_case(second):
         return [{'input': {'class': 'hang-or-crash', 'stage': 'ssh1-fallback', 'fault': ['protocol major versions differ', second]}, 'got': {'status': st, 'connections': peer.connections},
                  'want': 'one retry with the SSH-1 identification, then a documented status'}]
     return []
+def ratecheck_case(kind):
+    # the connection-rate check is part of a standard audit unless skipped: with it, a well-formed peer still gets a complete report and a
+    # documented status, whether the check's connections are served, throttled, refused or closed at once
+    srv = base_server()
+    if kind == 'throttled':
+        srv.throttle_after, srv.throttle_answer = 3, b'Exceeded MaxStartups\r\n'
+    elif kind == 'closed':
+        srv.throttle_after, srv.throttle_answer = 2, None
+    net = F.FakeNet({'s.test': srv})
+    net.recv_budget = 100000
+    st, out = F.run_main(['-n', 's.test'], net)
+    missing = names_reported(out, [('kex', KEX), ('key', KEYS), ('enc', ENC), ('mac', MAC)])
+    if st not in (0, 2, 3) or missing:
+        return [{'input': {'class': 'hang-or-crash' if st not in (0, 1, 2, 3) else 'report-lost', 'stage': 'rate-check', 'fault': [kind]}, 'got': {'status': st, 'missing from the report': missing[:4], 'tail': out.strip().split('\n')[-2:]},
+                 'want': 'a complete report and status 0, 2 or 3 (the initial handshake was well-formed)'}]
+    return []
 res += [fallback_case(x) for x in ('close', 'garbage', 'always-differs')]
+res += [ratecheck_case(x) for x in ('served', 'throttled', 'closed')]
 ssh1_work = [('masks', m) for m in (0, 1, 0x24, 0x48, 0x7f, 0x80, 0xa4, 0xff, 0x100, 0xffff, 0x7fffffff, 0xffffffff)] + [('truncate', c) for c in range(0, 428)] + [('badcrc', 0)] + [('wrongtype', t) for t in (0, 1, 3, 20, 255)] + [('rawcut', c) for c in range(0, 440, 7)] + [('garbage', n) for n in (1, 7, 8, 16, 64)]
 res += run_pool(ssh1_case, ssh1_work)
 work = list(work) + ssh1_work
